@@ -368,11 +368,13 @@ harness! {
 }
 
 // ---------------------------------------------------------------------------
-// char delimiters (any char), quick: string<=4 bytes
+// char delimiters (any char), quick: string<=4 bytes.
+// Unwind: the backtracking reverse search needs up to 10 iterations on 4 bytes (a 4-byte
+// delimiter whose continuation bytes keep matching).
 
 harness! {
     /// kind=bounded tier=quick bound="valid UTF-8 string<=4 bytes, char delimiter (any char), every step until exhaustion (<=5 pieces)"
-    #[kani::unwind(9)]
+    #[kani::unwind(12)]
     #[kani::stub(konst_kernel::string::non_char_boundary_panic, crate::hlib::stub_non_char_boundary_panic)]
     fn c06_split_char(s) {
         let f = body_char::<_, 4, 6>(s, Which::Split);
@@ -384,7 +386,7 @@ harness! {
 
 harness! {
     /// kind=bounded tier=quick bound="valid UTF-8 string<=4 bytes, char delimiter (any char), every step until exhaustion (<=5 pieces)"
-    #[kani::unwind(9)]
+    #[kani::unwind(12)]
     #[kani::stub(konst_kernel::string::non_char_boundary_panic, crate::hlib::stub_non_char_boundary_panic)]
     fn c06_rsplit_char(s) {
         let f = body_char::<_, 4, 6>(s, Which::RSplit);
@@ -395,7 +397,7 @@ harness! {
 
 harness! {
     /// kind=bounded tier=quick bound="valid UTF-8 string<=4 bytes, char delimiter (any char), every step until exhaustion (<=5 pieces)"
-    #[kani::unwind(9)]
+    #[kani::unwind(12)]
     #[kani::stub(konst_kernel::string::non_char_boundary_panic, crate::hlib::stub_non_char_boundary_panic)]
     fn c06_split_terminator_char(s) {
         let f = body_char::<_, 4, 6>(s, Which::SplitTerminator);
@@ -406,7 +408,7 @@ harness! {
 
 harness! {
     /// kind=bounded tier=quick bound="valid UTF-8 string<=4 bytes, char delimiter (any char), every step until exhaustion (<=5 pieces)"
-    #[kani::unwind(9)]
+    #[kani::unwind(12)]
     #[kani::stub(konst_kernel::string::non_char_boundary_panic, crate::hlib::stub_non_char_boundary_panic)]
     fn c06_rsplit_terminator_char(s) {
         let f = body_char::<_, 4, 6>(s, Which::RSplitTerminator);
@@ -417,7 +419,7 @@ harness! {
 
 harness! {
     /// kind=bounded tier=quick bound="valid UTF-8 string<=4 bytes, char delimiter (any char); one next_back() and rev() of split, then every step until exhaustion"
-    #[kani::unwind(9)]
+    #[kani::unwind(12)]
     #[kani::stub(konst_kernel::string::non_char_boundary_panic, crate::hlib::stub_non_char_boundary_panic)]
     fn c06_split_rev_char(s) {
         let f = body_char::<_, 4, 6>(s, Which::SplitRev);
@@ -427,7 +429,7 @@ harness! {
 
 harness! {
     /// kind=bounded tier=quick bound="valid UTF-8 string<=4 bytes, char delimiter (any char); one next_back() and rev() of rsplit, then every step until exhaustion"
-    #[kani::unwind(9)]
+    #[kani::unwind(12)]
     #[kani::stub(konst_kernel::string::non_char_boundary_panic, crate::hlib::stub_non_char_boundary_panic)]
     fn c06_rsplit_rev_char(s) {
         let f = body_char::<_, 4, 6>(s, Which::RSplitRev);
@@ -494,7 +496,7 @@ macro_rules! c06_char_big {
     ($name:ident, $w:expr) => {
         harness! {
             /// kind=bounded tier=thorough bound="valid UTF-8 string<=5 bytes, char delimiter (any char), every step until exhaustion (<=6 pieces)"
-            #[kani::unwind(10)]
+            #[kani::unwind(14)]
             #[kani::stub(konst_kernel::string::non_char_boundary_panic, crate::hlib::stub_non_char_boundary_panic)]
             fn $name(s) {
                 let f = body_char::<_, 5, 7>(s, $w);
